@@ -36,6 +36,12 @@ def run(ctx):
     if rc != 0 or not obs:
         ctx.broken_tie("harness crashed", out[-2000:])
         return
+    # the wiring: real client and server channels on connections with asymmetric negotiated buffer sizes
+    rcw, outw = vf.sh([h, "-seed", str(ctx.seed), "-n", str(200 if ctx.thorough() else 24), "c38wired"], timeout=600, env=vf.GOENV)
+    wired = [json.loads(l) for l in outw.splitlines() if l.startswith("{")]
+    if rcw != 0 or not wired:
+        ctx.broken_tie("harness crashed (c38wired)", outw[-2000:])
+        return
 
     # (1) the property itself, evaluated on the implementation (oracle used for replay search)
     fails = []
@@ -79,6 +85,19 @@ def run(ctx):
         if why:
             fails.append((why, dict(o, body=o["bodylen"])))
 
+    # (1c) the maximal body of a live channel end fits the chunk size of the direction it is sent in (policy None: 24 bytes of headers)
+    wired_setup_errors = [o for o in wired if o.get("err")]
+    for o in wired:
+        if o.get("err"):
+            continue
+        if o["maxbody"] + 24 > o["send"]:
+            fails.append(("the %s channel (after %s) takes a maximal body of %d bytes, its chunk of %d bytes exceeds the negotiated send chunk size %d (HEL recv/send %d/%d, server %d/%d)" % (
+                o["side"], o["phase"], o["maxbody"], o["maxbody"] + 24, o["send"], o["cli_recv"], o["cli_send"], o["srv_recv"], o["srv_send"]),
+                dict(o, policy="None", mode=1, body=o["maxbody"], how="chunkharness c38wired: uacp.Listen/Dialer with these buffer sizes, policy None, Open (+Renew), read the active instance's maxBodySize")))
+    if len(wired_setup_errors) > len(wired) // 2:
+        ctx.broken_tie("c38wired: most connections could not be set up", json.dumps(wired_setup_errors[:3]))
+        return
+
     # (2) correspondence: model (Coq, vm_compute) vs implementation on the same inputs
     corr_ok, mism = True, []
     if ok:
@@ -112,6 +131,19 @@ def run(ctx):
   (go_SetMaximumBodySize cs block plain sig rsig =? maxbody) &&
   (fst (go_nrChunks bodylen maxbody) =? Z.of_nat (length chunks)) &&
   forallb (fun rs => secured_len m block plain sig rsig sym_hdr (seq_hdr + fst rs) =? snd rs) chunks""", name="Enc")
+        wgood = [o for o in wired if not o.get("err")]
+        okw, idxw, clogw = ctx.eval_cases(
+            "From Coq Require Import ZArith List Bool.\nFrom Opcua Require Import Model.Layout Gen.ArithFromGo.\nImport ListNotations. Open Scope Z_scope.",
+            "Z * Z", ["(%d, %d)" % (o["send"], o["maxbody"]) for o in wgood],
+            """  let '(send, maxbody) := c in
+  (go_SetMaximumBodySize send 1 1 0 0 =? maxbody) &&
+  (secured_len ModeNone 1 1 0 0 sym_hdr (seq_hdr + maxbody) <=? send)""", name="Wired")
+        if not okw:
+            oke = False
+            cloge = (cloge or "") + clogw
+        elif idxw:
+            corr_ok = False
+            detail["wired_mismatches"] = [wgood[i] for i in idxw[:6]]
         if not oke:
             okc = False
             clog = (clog or "") + cloge
@@ -130,9 +162,10 @@ def run(ctx):
 
     distinct = {(o["policy"], o["mode"], o["cs"], o["body"]) for o in obs}
     ctx.coverage.update({
-        "evaluations": len(obs) + len(encs), "distinct_nontrivial": len(distinct) + len({(o["policy"], o["mode"], o["cs"], o["bodylen"]) for o in encs}),
+        "evaluations": len(obs) + len(encs) + len(wired),
+        "wired_channel_ends": len(wired), "wired_asymmetric_ends": sum(1 for o in wired if not o.get("err") and o["send"] != o["recv"]), "distinct_nontrivial": len(distinct) + len({(o["policy"], o["mode"], o["cs"], o["bodylen"]) for o in encs}),
         "encode_chunks_cases": len(encs),
-        "rule": "real uapolicy.Symmetric algorithms x allowed modes x chunk sizes (all residues mod 16 near 8192, 65535, 65536, 2^20 + %d seeded random sizes) x bodies {max, max+1, 0, random}; plus newMessage -> EncodeChunks -> signAndEncrypt for message bodies k*max+j (k=1..4, j=0..3): per-chunk body <= max, secured size <= chunk size, sizes vs the model; distinct = distinct (policy, mode, chunk size, body size)" % n,
+        "rule": "real uapolicy.Symmetric algorithms x allowed modes x chunk sizes (all residues mod 16 near 8192, 65535, 65536, 2^20 + %d seeded random sizes) x bodies {max, max+1, 0, random}; plus newMessage -> EncodeChunks -> signAndEncrypt for message bodies k*max+j (k=1..4, j=0..3): per-chunk body <= max, secured size <= chunk size, sizes vs the model; plus real client and server channels (policy None) opened and renewed on uacp connections with asymmetric HEL/ACK buffer sizes: each end's maximal body fits ITS send chunk size and equals the model at that size; distinct = distinct (policy, mode, chunk size, body size)" % n,
         "samples": obs[:3] + obs[-2:],
         "policies": sorted({o["policy"] for o in obs}),
         "chunk_sizes": len({o["cs"] for o in obs}),
